@@ -176,6 +176,8 @@ impl Ldap {
     ) -> Result<(LdapResult, Exop, SaslCreds)> {
         let id = self.next_msgid();
         self.last_id = id;
+        // A Search has already taken its options; for any other operation they are discarded.
+        self.search_opts = None;
         let (tx, rx) = oneshot::channel();
         self.tx.send((id, op, req, self.controls.take(), tx))?;
         let response = if let Some(timeout) = self.timeout.take() {
